@@ -695,6 +695,42 @@ def chunk_rand(spec, ctx):
         check_queries(ctx, recv[kq][0], kq, n, adj, salt,
                       {"n": n, "edges": [list(e) for e in edges], "receiver": kq, "style": style},
                       graph_reference(ctx, n, edges, adj, salt))
+        # ... and again after the graph was edited (a query must see the graph as it is now, not as it was when a
+        # previous query ran): one bond added and / or one bond deleted on the same receiver
+        if n <= 24:
+            xq = recv[kq][0]
+            cur = [tuple(e) for e in edges]
+            for step in range(2):
+                present = {frozenset(e) for e in cur}
+                if step == 0:
+                    cand = [(i, j) for i in range(n) for j in range(i + 1, n) if frozenset((i, j)) not in present]
+                    if not cand:
+                        continue
+                    i, j = rng.choice(cand)
+                    xq.connect(i, j)
+                    cur = cur + [(i, j)]
+                    what = "bond-added"
+                else:
+                    if not cur:
+                        continue
+                    atoms_q, bonds_q, idx_q, edges_q = graph_of(xq)
+                    kdel = rng.randrange(len(bonds_q))
+                    xq.del_bond(bonds_q[kdel])
+                    gone = frozenset(edges_q[kdel])
+                    cur = [e for e in cur if frozenset(e) != gone]
+                    what = "bond-deleted"
+                ctx.count("edit-between-queries." + what)
+                adj2 = R.adjacency(n, cur)
+                _, _, _, got2 = graph_of(xq)
+                if sorted(frozenset(e) for e in got2) != sorted(frozenset(e) for e in cur):
+                    raise RuntimeError(f"harness: edited receiver exposes edges {got2}, expected {cur}")
+                check_queries(ctx, xq, kq, n, adj2, salt,
+                              {"n": n, "edges": [list(e) for e in got2], "receiver": kq, "style": style, "after": what},
+                              graph_reference(ctx, n, [tuple(e) for e in got2], adj2, salt))
+            # the matching part below uses fresh receivers of the ORIGINAL graph
+            route = rng.randrange(3)
+            xfresh = build(kq, aspecs, bspecs, route=route, by_atom=False)
+            recv[kq] = (xfresh, graph_of(xfresh)[2])
         # patterns
         made = 0
         for t in range(8):
